@@ -48,7 +48,10 @@ def run_one(m):
 
 def main():
     want = set(sys.argv[1:])
-    muts = json.load(open(os.path.join(HERE, "selftest", "mutations.json")))
+    muts = []
+    import glob
+    for f in sorted(glob.glob(os.path.join(HERE, "selftest", "mutations*.json"))):
+        muts += json.load(open(f))
     muts = [m for m in muts if not want or m["property"] in want]
     res = []
     with cf.ThreadPoolExecutor(max_workers=8) as ex:
